@@ -145,15 +145,29 @@ def r16_5(ctx: Ctx) -> None:
             good = any(pol and isinstance(c, ast.Call) and attr_tail(c) == "is_path_valid" for c, pol in q.facts_at(f, r))
         ctx.check(good, "R16.5", f, r, "acceptance is the shared is_path_valid verdict on probe/name", "check_archive_path accepts a name without the is_path_valid(probe.joinpath(name), probe) verdict")
     # independent climb check: a rejecting exit control-dependent on the name's own components
-    parts_loop = [n for n in walk(f.node) if isinstance(n, ast.For) and any(isinstance(x, ast.Attribute) and x.attr == "parts" for x in ast.walk(n.iter))]
     climb = False
-    for lp in parts_loop:
+    for g, lp, via in q.deep_nodes(ctx, f, depth=2):
+        if not (isinstance(lp, ast.For) and any(isinstance(x, ast.Attribute) and x.attr == "parts" for x in ast.walk(lp.iter))):
+            continue
         has_dotdot = any(isinstance(x, ast.Constant) and x.value == ".." for x in ast.walk(lp))
-        rej = [x for x in walk(lp) if isinstance(x, ast.Return) and isinstance(x.value, ast.Constant) and x.value.value is False]
+        rej = [x for x in walk(lp) if isinstance(x, ast.Return) and isinstance(x.value, ast.Constant) and isinstance(x.value.value, bool)]
         neg = any(isinstance(x, ast.Compare) and isinstance(x.ops[0], (ast.Lt, ast.LtE)) and isinstance(x.comparators[0], ast.Constant)
                   and x.comparators[0].value in (0, -1) for x in ast.walk(lp))
-        if has_dotdot and rej and neg:
-            climb = True
+        if not (has_dotdot and rej and neg):
+            continue
+        if g is f:
+            climb = all(x.value.value is False for x in rej)
+        else:
+            # the helper's verdict must lead to rejection in check_archive_path: `if helper(name): return False` / `if not helper(name): return False`
+            rejecting_value = rej[0].value.value
+            for tn in cfg.nodes:
+                if tn.kind == "test" and via is not None and any(x is via for x in ast.walk(tn.ast)):
+                    for pol in (True, False):
+                        for atom, ap in q.atoms(tn.ast, pol):
+                            if atom is via and ap == rejecting_value:
+                                edge = next((s_ for s_ in tn.succ if s_.kind == ("true" if pol else "false")), None)
+                                if edge is not None and all(isinstance(s_.ast, ast.Return) and isinstance(s_.ast.value, ast.Constant) and s_.ast.value.value is False for s_ in edge.succ):
+                                    climb = True
     normp = any(isinstance(c, ast.Call) and dotted(c.func).endswith("normpath") for c in q.calls(f))
     ctx.check(climb or normp, "R16.5", f, f.node, "names climbing above their own root are rejected independently of the probe directory",
               "check_archive_path decides only on the path joined to a fixed probe directory: a name that climbs out with '..' and re-enters by "
